@@ -21,6 +21,7 @@
 (* Scenario families (chosen in Init):                                     *)
 (*   populate  a FILE-LIST of at most MaxEntries entries, then the         *)
 (*             generator on the result (round trip)                        *)
+(*             (also: into a directory that already holds files and links) *)
 (*   invalid   a FILE-LIST with an invalid name somewhere                  *)
 (*   match     a prepared tree (regular files, directories, symbolic links)*)
 (*             x options x pruning / selection                             *)
@@ -321,8 +322,14 @@ WithParents(t, p) == t @@ [a \in Ancestors(p) \ DOMAIN t |-> DirNode]
 MkNode(t, p, n)   == (p :> n) @@ WithParents(t, p)
 IsDirAt(t, p)     == p \in DOMAIN t /\ t[p].k = "d"
 IsFileAt(t, p)    == p \in DOMAIN t /\ t[p].k = "f"
-CopyClashes(t, p) == \E s \in SrcTop : (p \o s) \in DOMAIN t
-CopyInto(t, p)    == t @@ [q \in {p \o s : s \in DOMAIN SrcTree} |-> SrcTree[RelOf(p, q)]]
+\* "exists" is existence of the directory entry (symbolic links are not followed: a dangling link exists).
+\* Deviation CopyClashFollowsLinks: the check follows links, a dangling link is overlooked and a regular file of
+\* the source is then written THROUGH it - the link's target <<AbsMark, 8>> comes into being, outside D.
+Overlooked(t, q)  == "CopyClashFollowsLinks" \in Deviations /\ q \in DOMAIN t /\ t[q].k = "lb"
+CopyClashes(t, p) == \E s \in SrcTop : (p \o s) \in DOMAIN t /\ ~Overlooked(t, p \o s)
+CopyInto(t, p)    == LET copied == t @@ [q \in {p \o s : s \in DOMAIN SrcTree} |-> SrcTree[RelOf(p, q)]]
+                     IN IF \E s \in SrcTop : Overlooked(t, p \o s) /\ SrcTree[s].k = "f"
+                        THEN copied @@ (<<AbsMark, 8>> :> FileNode(<<8>>)) ELSE copied
 
 \* what an entry needs in order to be applicable
 Applicable(t, e, p) ==
@@ -355,10 +362,15 @@ DenList(l, base, st) ==
 
 BareTree == (<<>> :> DirNode) @@ (<<AbsMark>> :> DirNode)
 InitialTree(pre) == IF pre THEN BareTree @@ (D :> DirNode) ELSE BareTree
+\* a scenario may say what D contains before the instruction (field init: a set of [p, k]): regular files,
+\* directories and symbolic links - to a file / to a directory outside D, or to nothing ("lb", dangling)
+InitOf(s) == IF "init" \in DOMAIN s
+             THEN InitialTree(TRUE) @@ [p \in {x.p : x \in s.init} |-> NodeOfKind((CHOOSE x \in s.init : x.p = p).k)]
+             ELSE InitialTree(s.pre)
 Denotation(s) ==
   IF "NoNameValidation" \notin Deviations /\ \E n \in NamesOf(s.top.sub) : InvalidName(n)
-  THEN [res |-> "VALIDATION_ERROR", tree |-> InitialTree(s.pre), exact |-> TRUE]
-  ELSE LET st == DenList(<<s.top>>, <<>>, [tree |-> InitialTree(s.pre), n |-> 0, ok |-> TRUE, exact |-> TRUE])
+  THEN [res |-> "VALIDATION_ERROR", tree |-> InitOf(s), exact |-> TRUE]
+  ELSE LET st == DenList(<<s.top>>, <<>>, [tree |-> InitOf(s), n |-> 0, ok |-> TRUE, exact |-> TRUE])
        IN [res |-> IF st.ok THEN "PASS" ELSE "HARD_ERROR", tree |-> st.tree, exact |-> st.exact]
 
 RECURSIVE NEntries(_)
@@ -366,7 +378,7 @@ NEntries(l) == IF l = <<>> THEN 0 ELSE 1 + NEntries(Head(l).sub) + NEntries(Tail
 \* A list that fails long before its end behaves as its prefix does: of the failing lists those are explored in
 \* which at most MaxTail entries follow the failing one (they must not be applied).
 StopsLate(s) ==
-  LET st == DenList(<<s.top>>, <<>>, [tree |-> InitialTree(s.pre), n |-> 0, ok |-> TRUE, exact |-> TRUE])
+  LET st == DenList(<<s.top>>, <<>>, [tree |-> InitOf(s), n |-> 0, ok |-> TRUE, exact |-> TRUE])
   IN st.ok \/ st.n + MaxTail >= NEntries(<<s.top>>)
 \* the instruction: `dir D = { list }` on a fresh place for every list; the other forms for the short lists
 PopScenarios == {s \in
@@ -376,6 +388,36 @@ PopScenarios == {s \in
   \cup {[top |-> TopEntry(m, "copy", <<>>), pre |-> pr] : m \in {"set", "app"}, pr \in BOOLEAN}
   \cup {[top |-> TopEntry("none", "none", <<>>), pre |-> pr] : pr \in BOOLEAN}
   : StopsLate(s)}
+
+\* ---- populating a directory that already has contents, among them symbolic links -------------------------
+\* D holds a regular file c and ONE entry of every kind (regular file, directory, link to a file, link to a
+\* directory, dangling link) named like something the instruction is about to create: a or b (the copied source
+\* has the file a and the directory b), directly in D or in the directory D/b.  Every such entry EXISTS: the copy
+\* must report the clash, `file n` / `dir n` must fail, nothing may be written through the link.
+PreKinds == {"f", "d", "lf", "ld", "lb"}
+Other    == [p |-> <<DName, 3>>, k |-> "f"]
+PreInits == {{[p |-> <<DName, n>>, k |-> kd], Other} : n \in {1, 2}, kd \in PreKinds}
+            \cup {{[p |-> <<DName, 2>>, k |-> "d"], [p |-> <<DName, 2, n>>, k |-> kd], Other} : n \in {1, 2}, kd \in PreKinds}
+PreEntries == UNION {{Entry("file", <<n>>, "none", "none", <<>>), Entry("file", <<n>>, "set", "text", <<>>),
+                      Entry("file", <<n>>, "app", "text", <<>>), Entry("dir", <<n>>, "none", "none", <<>>),
+                      Entry("dir", <<n>>, "set", "list", <<>>), Entry("dir", <<n>>, "set", "copy", <<>>),
+                      Entry("dir", <<n>>, "app", "list", <<>>), Entry("dir", <<n>>, "app", "copy", <<>>)} : n \in {1, 2}}
+FlatTops == {TopEntry("app", "copy", <<>>)} \cup {TopEntry("app", "list", <<e>>) : e \in PreEntries}
+DeepTops == {TopEntry("app", "list", <<Entry("dir", <<2>>, "app", "list", <<e>>)>>) : e \in PreEntries}
+\* += on a link to an EXISTING file / directory works on the link's target (the links are followed, as documented
+\* for the check of the path): such scenarios say nothing about D and are left out
+AppPaths(s) ==
+  LET l == s.top.sub
+  IN {D \o l[i].name : i \in {j \in 1..Len(l) : l[j].mod = "app"}}
+     \cup UNION {{D \o l[i].name \o l[i].sub[k].name : k \in {j \in 1..Len(l[i].sub) : l[i].sub[j].mod = "app"}}
+                 : i \in 1..Len(l)}
+FollowsLink(s) == \E x \in s.init : x.k \in {"lf", "ld"} /\ x.p \in AppPaths(s)
+PreScenarios ==
+  IF "populate" \notin Families THEN {} ELSE
+  {s \in {[top |-> t, pre |-> TRUE, init |-> i] : t \in FlatTops, i \in PreInits}
+          \cup {[top |-> t, pre |-> TRUE, init |-> i] :
+                  t \in DeepTops, i \in {j \in PreInits : [p |-> <<DName, 2>>, k |-> "d"] \in j}}
+   : ~FollowsLink(s)}
 
 \* ---------------------------------------------------------------------------------------------
 \* prepared trees
@@ -469,7 +511,14 @@ InitPopulate ==
   /\ fam \in {"populate", "invalid"} \cap Families
   /\ sc \in (IF fam = "populate" THEN PopScenarios ELSE BadScenarios)
   /\ InShard((ListHash(sc.top.sub) \div ListMod) + (IF sc.pre THEN 1 ELSE 0))
-  /\ tree = InitialTree(sc.pre)
+  /\ tree = InitOf(sc)
+  /\ phase = "validate" /\ Idle
+
+InitPreExisting ==
+  /\ fam = "populate" /\ fam \in Families
+  /\ sc \in PreScenarios
+  /\ InShard(TreeHash(sc.init) + ListHash(sc.top.sub))
+  /\ tree = InitOf(sc)
   /\ phase = "validate" /\ Idle
 
 InitMatch ==
@@ -492,7 +541,7 @@ InitGivenList ==
   /\ \E gi \in 1..Len(GivenLists) :
        /\ InShard(gi)
        /\ sc = [top |-> GivenLists[gi].top, pre |-> GivenLists[gi].pre, gi |-> gi]
-  /\ tree = InitialTree(sc.pre)
+  /\ tree = InitOf(sc)
   /\ phase = "validate" /\ Idle
 
 InitGiven ==
@@ -515,7 +564,7 @@ InitNames ==
   /\ tree = (D :> DirNode) @@ (<<DName, ScName>> :> FileNode(<<>>))
   /\ phase = "idle" /\ Idle
 
-Init == InitPopulate \/ InitMatch \/ InitGiven \/ InitGivenList \/ InitExists \/ InitNames
+Init == InitPopulate \/ InitPreExisting \/ InitMatch \/ InitGiven \/ InitGivenList \/ InitExists \/ InitNames
 
 \* ---------------------------------------------------------------------------------------------
 \* Populate
@@ -747,7 +796,7 @@ TypeOK ==
 \* names that are empty, absolute or contain `..` never get as far as creating anything ...
 InvalidCreatesNothing ==
   (fam \in {"populate", "invalid"} /\ \E n \in NamesOf(sc.top.sub) : InvalidName(n)) =>
-     (tree = InitialTree(sc.pre) /\ (Done => result = "VALIDATION_ERROR"))
+     (tree = InitOf(sc) /\ (Done => result = "VALIDATION_ERROR"))
 \* ... and nothing is ever created outside the populated directory
 NothingOutside ==
   fam \in {"populate", "invalid"} => \A p \in DOMAIN tree : p \in {<<>>, <<AbsMark>>} \/ p[1] = DName
